@@ -15,7 +15,7 @@
    src/quantity/predefined.py (Gen/TempTable.v). *)
 From Coq Require Import ZArith QArith Qabs List Bool.
 From QV Require Import Model.Num Model.Rounding Model.Quantity Model.Table
-     Gen.TempTable Proofs.QuantityProofs Proofs.C14Proofs.
+     Gen.TempTable Gen.QuantityImpl Proofs.QuantityProofs Proofs.GenQuantityEq Proofs.C14Proofs.
 
 (* pair tabulated: exactly amount * factor + offset, in the target unit.  With
    several stacked converters the most recent one that tabulates the pair (in
@@ -253,3 +253,22 @@ Example C14_inconsistent_rejected :
   table_consistent [((1%N, 2%N), (9 # 5, 32 # 1)); ((1%N, 3%N), (1, 27315 # 100));
                     ((2%N, 3%N), (5 # 9, 45967 # 180))] temp_units = true.
 Proof. vm_compute. repeat split. Qed.
+
+(* the functions the theorems above are about are the code: Converter.__call__
+   and TableConverter._get_factor (src/quantity/converter.py) and
+   Quantity.equiv_amount / convert / __eq__ (src/quantity/__init__.py) are
+   re-translated on every run (Gen/QuantityImpl.v) and equal the model on all
+   inputs; the refinement with the zero-factor exception is Model/Table.v
+   (C14_refined_model_agrees) *)
+Theorem C14_model_is_translated_code :
+  (forall t q to, same_cls (q_unit q) to = true -> table_call_impl t q to = Ok (table_conv t q to)) /\
+  (forall t q to, same_cls (q_unit q) to = false -> same_unit (q_unit q) to = false ->
+                  table_call_impl t q to = Err EIncompatibleUnits) /\
+  (forall ce q to, equiv_amount_impl ce q to = equiv_amount ce q to) /\
+  (forall ce dm q to, convert_impl ce dm q to = convert ce dm q to) /\
+  (forall ce p q, qty_eq_impl ce p q = qty_eq ce p q).
+Proof.
+  split; [exact table_call_impl_eq|]. split; [exact table_call_impl_other_type|].
+  split; [exact equiv_amount_impl_eq|]. split; [exact convert_impl_eq | exact qty_eq_impl_eq].
+Qed.
+Print Assumptions C14_model_is_translated_code.
